@@ -123,16 +123,25 @@ def closure(case, i):
     return sorted(seen)
 
 
+def flags(case, i):
+    """(output switch, has back references) of rule i, read off the source"""
+    refs = [r for r in case["rules"] if r["k"] == "c" and i in r["refs"]]
+    return (all(r["gen"] for r in refs), bool(refs))
+
+
 def alone(case, names, i):
-    """fresh objects for everything; the rule on its own (a correlation rule together with what it refers to,
-    nothing of it emitted)"""
+    """fresh objects for everything (backend, pipeline, parsed rules); the rule on its own, in the same role it
+    has in the collection: a correlation rule comes with the rules it refers to (nothing of them emitted); a
+    rule that is referred to comes with one stub correlation rule referring to it (generate = its output
+    switch), whose own output is dropped"""
     r = case["rules"][i]
+    out, br = flags(case, i)
     raw = []
     def cb(rule, fmt, index, cond, result):
         if rule.name == names[i]:
             raw.append(result)
         return result
-    if r["k"] == "d":
+    if r["k"] == "d" and not br:
         be = make_backend(case, names, False)
         col = collection(case, names, [i])
         try:
@@ -142,7 +151,12 @@ def alone(case, names, i):
             return dict(err(e), raw=raw)
     be = make_backend(case, names, True)
     idxs = closure(case, i)
-    col = collection(case, names, idxs, force_nogen=True)
+    docs = [rule_doc(j, case["rules"][j], names, True) for j in idxs]
+    if br:
+        docs.append({"title": "stub", "name": "stub",
+                     "correlation": {"type": "event_count", "rules": [names[i]], "generate": out, "group-by": ["u"],
+                                     "timespan": "5m", "condition": {"gte": 2}}})
+    col = SigmaCollection.from_yaml(yaml.safe_dump_all(docs))
     try:
         q = be.convert(col, case["fmt"], callback=cb)
     except Exception as e:  # noqa
@@ -150,6 +164,8 @@ def alone(case, names, i):
     mine = [e for (ru, e) in be.errors if ru.name == names[i]]
     if mine:
         return dict(err(mine[0]), raw=raw, nerr=len(mine))
+    if br and not any(ru.name == "stub" for (ru, e) in be.errors):
+        q = q[:-1]
     return {"q": q, "raw": raw}
 
 
